@@ -430,6 +430,31 @@ const README_SCOPE_PROBES: [&str; 8] = [
     "let x = 1;\nwhile (let t = x) < 3 do x <- x + 1;\nprint(\"~ ~\\n\", x, t);\nlet o = object begin let f = (let viaField = 5); end;\nprint(\"~ ~\\n\", viaField, o.f);\n",
 ];
 
+/// What a body must *not* see (and the few things it must): a name that exists close by — as a field
+/// of the receiver or of the first argument, as a local of the caller or of the block that created
+/// the object, as a parameter of another body — is still unknown.
+const VISIBILITY_PROBES: [&str; 19] = [
+    "let o = object begin let count = 10; function peek() -> count; end;\nprint(\"a\\n\");\no.peek();\nprint(\"b\\n\");\n",
+    "let o = object begin let count = 10; function bump() -> count <- count + 1; end;\nprint(\"a\\n\");\no.bump();\nprint(\"b ~\\n\", o);\n",
+    "let o = object begin let count = 10; function set(v) -> count <- v; end;\nprint(\"a\\n\");\no.set(3);\nprint(\"b ~\\n\", o);\n",
+    "function f(rec) -> count;\nlet r = object begin let count = 1; end;\nprint(\"a\\n\");\nf(r);\nprint(\"b\\n\");\n",
+    "function f(rec, v) -> count <- v;\nlet r = object begin let count = 1; end;\nprint(\"a\\n\");\nf(r, 2);\nprint(\"b ~\\n\", r);\n",
+    "begin\n  let first = object begin let count = 1; end;\n  print(\"a\\n\");\n  count;\n  print(\"b\\n\")\nend;\n",
+    "begin\n  let first = object begin let count = 1; end;\n  print(\"a\\n\");\n  count <- 2;\n  print(\"b ~\\n\", first)\nend;\n",
+    "function g() -> secret;\nbegin let secret = 1; print(\"a\\n\"); g(); print(\"b\\n\") end;\n",
+    "function setit() -> loc <- 2;\nbegin let loc = 1; print(\"a\\n\"); setit(); print(\"~\\n\", loc) end;\n",
+    "begin\n  let hidden = 5;\n  let o = object begin function m() -> hidden; end;\n  print(\"a\\n\");\n  o.m();\n  print(\"b\\n\")\nend;\n",
+    "function inner() -> loc;\nfunction outer() -> begin let loc = 1; inner() end;\nprint(\"a\\n\");\nouter();\nprint(\"b\\n\");\n",
+    "function f(p) -> p;\nf(1);\nprint(\"a\\n\");\np;\nprint(\"b\\n\");\n",
+    "let o = object begin function a(x) -> this.b(); function b() -> x; end;\nprint(\"a\\n\");\no.a(1);\nprint(\"b\\n\");\n",
+    "begin let v = 3; let o = object begin let f = v + 1; end; print(\"~\\n\", o.f) end;\n",
+    "let o = object begin let fld = 1; end;\nprint(\"a\\n\");\nfld;\nprint(\"b\\n\");\n",
+    "let g = 1;\nfunction f() -> g <- g + 1;\nf();\nprint(\"~\\n\", g);\nlet o = object begin function m() -> g <- g * 10; end;\no.m();\nprint(\"~\\n\", g);\n",
+    "begin let notglobal = 1 end;\nfunction f() -> notglobal;\nprint(\"a\\n\");\nf();\nprint(\"b\\n\");\n",
+    "if true then let viaIf = 1 else 2;\nfunction f() -> viaIf;\nprint(\"~\\n\", f());\n",
+    "let base = object begin let count = 7; function read() -> this.count; end;\nlet child = object extends base begin function peek() -> count; end;\nprint(\"~\\n\", child.read());\nprint(\"a\\n\");\nchild.peek();\nprint(\"b\\n\");\n",
+];
+
 fn c12_hazard_probes(rep: &mut Report) {
     for (kind, src) in HAZARD_PROBES.iter() {
         rep.evaluations += 1;
@@ -474,7 +499,7 @@ pub fn c12(ctx: &Ctx, rep: &mut Report) {
     }
     if ctx.shard == 0 {
         c12_hazard_probes(rep);
-        for (k, src) in README_SCOPE_PROBES.iter().enumerate() {
+        for (k, src) in README_SCOPE_PROBES.iter().chain(VISIBILITY_PROBES.iter()).enumerate() {
             match real::parse(src) {
                 Ok(ast) => {
                     let mut rng = ctx.rng("C12readme", k as u64);
